@@ -66,7 +66,7 @@ var typeInvRe = regexp.MustCompile(`^type-invariant\s+(\w+)\s+(\w+)\s*(\[[A-Z0-9
 var frameRe = regexp.MustCompile(`^postcondition\s+\(\*?(\w+)\)\s*(\[[A-Z0-9,]*\])?\s+([A-Za-z0-9_\-.]+):\s*(.*)$`)
 var defineRe = regexp.MustCompile(`^define\s+(\w+)\(([^)]*)\):\s*(.*)$`)
 var clauseRe = regexp.MustCompile(`^(requires|ensures|lemma|assume|witness|flag)(\[[A-Z0-9,]*\])?\s+([A-Za-z0-9_\-.]+):\s*(.*)$`)
-var loopRe = regexp.MustCompile(`^loop\s+(\d+|@"[^"]+")\s+(invariant|unroll|exit)(\[[A-Z0-9,]*\])?\s*(?:([A-Za-z0-9_\-.]+):\s*(.*))?$`)
+var loopRe = regexp.MustCompile(`^loop\s+(\d+|@"[^"]+")\s+(invariant|unroll|exit|decreases)(\[[A-Z0-9,]*\])?\s*(?:([A-Za-z0-9_\-.]+):\s*(.*))?$`)
 var callsiteRe = regexp.MustCompile(`^callsite\s+(\w+)\s+requires(\[[A-Z0-9,]*\])?\s+([A-Za-z0-9_\-.]+):\s*(.*)$`)
 var paramRe = regexp.MustCompile(`^param\s+(\w+)\s+(ensures|requires)(\[[A-Z0-9,]*\])?\s+([A-Za-z0-9_\-.]+):\s*(.*)$`)
 
